@@ -551,8 +551,13 @@ def _life(ix, driver, i, op, res):
             a = impl.observe(fresh)
             b = impl.observe(ix)
             fresh.pool = set(getattr(ix, "pool", set()))
+            # the rules held in RAM are part of "indistinguishable": the prefix a page WOULD get
+            probes = sorted(set(list(driver.u.lrus[:8]) + [a_ + x + y for a_ in list(getattr(driver, "after_clear", None) or [])[:3]
+                                                           for x in driver.u.paths[:2] for y in driver.u.paths[:2]]))
+            pot = lambda z: [guarded(lambda l=l: z.t.get_potential_prefix(l)) for l in probes]
             q["fresh"] = {"rawsame": fresh.raw() == ix.raw(), "obssame": a == b,
-                          "anssame": answers_digest(fresh, driver, i) == q["ans"]}
+                          "anssame": answers_digest(fresh, driver, i) == q["ans"],
+                          "potsame": _norm(pot(fresh)) == _norm(pot(ix))}
         finally:
             fresh.destroy()
     return q
